@@ -100,6 +100,7 @@ func checkC12(c *Ctx) {
 	c12NoLockAcrossHandler(c, ri)
 	c12LookupChecked(c, ri)
 	c12DerivedCache(c, ri, accs)
+	c12OrderPaired(c, ri, accs)
 
 	guards := GuardTable(c, accs)
 	guardOf := map[string]string{}
@@ -129,6 +130,42 @@ func checkC12(c *Ctx) {
 					a.Kind, kindClass(a), g.Field, fname(a.Fn), g.Guard, strings.Join(a.Locks.Keys(), ",")))
 		}
 	}
+
+	// R-lock-reentry: no function calls, while it holds a registry's mutex, a function that takes the same mutex of
+	// the same registry again — also not when both acquisitions are shared: with a registration waiting between the
+	// two, the second read lock queues behind the writer, the writer behind the first, and the registry is wedged for
+	// every later list, call and registration.
+	regGuards := map[string]bool{}
+	for _, g := range guardOf {
+		if g != "" {
+			regGuards[g] = true
+		}
+	}
+	_, reentries := nestedThroughCallees(c, c.P.LibFns)
+	nHolders := 0
+	acqSum := acquireSummaries(c)
+	for _, fn := range c.P.LibFns {
+		for _, m := range acqSum[fn] {
+			if regGuards[m.key] && m.at.Parent() == fn {
+				if _, isAcq := c.Locks().Classify(m.at); isAcq {
+					nHolders++
+				}
+			}
+		}
+	}
+	bad := map[*ssa.Function]bool{}
+	for _, r := range reentries {
+		if !regGuards[r.key] {
+			continue
+		}
+		bad[r.fn] = true
+		c.R.Violate("R-lock-reentry", sprintf("%s calls %s while holding %s", fname(r.fn), fname(r.callee), r.key), c.Pos(r.call.Pos()),
+			sprintf("%s calls %s while it holds %s, and %s (or a function it calls) takes the same mutex of the same registry again: once a Register*/Unregister* arrives between the two acquisitions the second one waits for that writer and the writer for the first — the registry stays locked, lists and calls are never answered", fname(r.fn), fname(r.callee), r.key, fname(r.callee)))
+	}
+	if nHolders < 10 {
+		c.R.Break("R-lock-reentry: only %d acquisitions of registry mutexes found", nHolders)
+	}
+	c.R.Hold("R-lock-reentry", "functions taking a registry mutex", "", sprintf("%d acquisitions of %d registry mutexes examined, %d re-entrant", nHolders, len(regGuards), len(bad)))
 
 	// R-snapshot: per function and owner, one acquisition site.
 	type fo struct {
@@ -898,5 +935,141 @@ func c12RowsUnconditional(c *Ctx) {
 	}
 	if n == 0 {
 		c.R.Hold("R-rows-unconditional", "no dispatch table is built from map updates", "", "")
+	}
+}
+
+// ---------------------------------------------------------------- R-order-paired
+// A registry that answers its listing in registration order keeps the keys in an order slice beside the map. The two
+// stay consistent only if a key is appended to the slice exactly when it is new to THAT map: every append of a key to
+// an order slice in a function that stores the same key into a registry map must be reachable only through the
+// "not found" edge of a comma-ok lookup of that key in that very map (a guard that consults another map is always
+// or never true: re-registration then lists the entry twice, or a new entry not at all).
+func samePath(a, b ssa.Value, d int) bool {
+	if a == b {
+		return true
+	}
+	if d > 6 {
+		return false
+	}
+	switch x := a.(type) {
+	case *ssa.UnOp:
+		y, ok := b.(*ssa.UnOp)
+		return ok && x.Op == y.Op && samePath(x.X, y.X, d+1)
+	case *ssa.FieldAddr:
+		y, ok := b.(*ssa.FieldAddr)
+		return ok && x.Field == y.Field && samePath(x.X, y.X, d+1)
+	case *ssa.Field:
+		y, ok := b.(*ssa.Field)
+		return ok && x.Field == y.Field && samePath(x.X, y.X, d+1)
+	case *ssa.ChangeType:
+		y, ok := b.(*ssa.ChangeType)
+		return ok && samePath(x.X, y.X, d+1)
+	}
+	return false
+}
+
+func c12OrderPaired(c *Ctx, ri *registryInfo, accs []Access) {
+	fieldKeyOf := func(v ssa.Value) string {
+		u, ok := v.(*ssa.UnOp)
+		if !ok {
+			return ""
+		}
+		fa, ok := u.X.(*ssa.FieldAddr)
+		if !ok {
+			return ""
+		}
+		key, _, _, _ := ir.FullField(fa)
+		return key
+	}
+	n := 0
+	for _, a := range accs {
+		if !ri.fields[a.Field] || ri.maps[a.Field] || a.Kind != "store" || a.Init || a.Local {
+			continue
+		}
+		st, ok := a.Instr.(*ssa.Store)
+		if !ok {
+			continue
+		}
+		call, ok := st.Val.(*ssa.Call)
+		if !ok {
+			continue
+		}
+		if b, ok := call.Call.Value.(*ssa.Builtin); !ok || b.Name() != "append" || len(call.Call.Args) != 2 {
+			continue
+		}
+		if fieldKeyOf(call.Call.Args[0]) != a.Field {
+			continue
+		}
+		// the appended key: append(order, k) compiles to a one-element slice literal [k]
+		var key ssa.Value
+		if sl, ok := call.Call.Args[1].(*ssa.Slice); ok {
+			if al, ok := sl.X.(*ssa.Alloc); ok && al.Referrers() != nil {
+				for _, r := range *al.Referrers() {
+					if ia, ok := r.(*ssa.IndexAddr); ok && ia.Referrers() != nil {
+						for _, rr := range *ia.Referrers() {
+							if s2, ok := rr.(*ssa.Store); ok && s2.Addr == ia {
+								key = s2.Val
+							}
+						}
+					}
+				}
+			}
+		}
+		if key == nil {
+			continue // not the append of one key (removal by re-slicing, for instance)
+		}
+		fn := a.Fn
+		// the registry map this function stores the key into
+		stored := ""
+		ir.EachInstr(fn, func(_ *ssa.BasicBlock, _ int, in ssa.Instruction) {
+			if mu, ok := in.(*ssa.MapUpdate); ok && samePath(mu.Key, key, 0) {
+				if k := fieldKeyOf(mu.Map); ri.maps[k] {
+					stored = k
+				}
+			}
+		})
+		if stored == "" {
+			continue
+		}
+		n++
+		construct := sprintf("append to %s in %s", a.Field, fname(fn))
+		guardedBy, other := false, ""
+		for _, g := range flow.Guards(fn, st.Block()) {
+			ex, ok := ir.Unwrap(g.If.Cond).(*ssa.Extract)
+			neg := false
+			if !ok {
+				if u, isNot := g.If.Cond.(*ssa.UnOp); isNot && u.Op == token.NOT {
+					ex, ok = ir.Unwrap(u.X).(*ssa.Extract)
+					neg = true
+				}
+			}
+			if !ok || ex.Index != 1 {
+				continue
+			}
+			lk, ok := ex.Tuple.(*ssa.Lookup)
+			if !ok || !lk.CommaOk {
+				continue
+			}
+			notFound := (g.Branch && neg) || (!g.Branch && !neg)
+			if !notFound {
+				continue
+			}
+			if fieldKeyOf(lk.X) == stored && samePath(lk.Index, key, 0) {
+				guardedBy = true
+			} else {
+				other = fieldKeyOf(lk.X)
+			}
+		}
+		why := "the append is not conditional on the key being new"
+		if other != "" {
+			why = sprintf("the append is conditional on a lookup in %s, not in the map the key is stored into", other)
+		}
+		c.R.Check(guardedBy, "R-order-paired", construct, c.Pos(st.Pos()),
+			sprintf("reached only when the key is not yet in %s", stored),
+			sprintf("%s appends the key to the order slice %s and stores it into %s, but %s: registering a key again lists it twice (or a new key is never listed), a listing that matches no state of the registry", fname(fn), a.Field, stored, why))
+	}
+	c.R.Min("R-order-paired", 3)
+	if n == 0 {
+		c.R.Break("R-order-paired: no append of a key to a registry order slice found")
 	}
 }
